@@ -24,7 +24,9 @@ type plainReader struct{ r io.Reader }
 
 func (p plainReader) Read(b []byte) (int, error) { return p.r.Read(b) }
 
-var inCarriers = []string{"[]byte", "string", "*bytes.Buffer", "*bytes.Reader", "*strings.Reader", "io.Reader", "[][]byte", "io.Reader/data+EOF", "io.Reader/short-reads"}
+var inCarriers = []string{"[]byte", "string", "*bytes.Buffer", "*bytes.Reader", "*strings.Reader", "io.Reader", "[][]byte", "io.Reader/data+EOF", "io.Reader/short-reads",
+	// a carrier whose first two bytes (a routing tag) were consumed by an upstream handler: the frame is the unread remainder
+	"*strings.Reader/tag-consumed", "*bytes.Reader/tag-consumed", "*bytes.Buffer/tag-consumed"}
 
 // fragReader: a plain io.Reader (not a WriterTo) with scripted behaviour: at most `max` bytes per
 // Read (0 = unlimited), the last bytes optionally delivered together with io.EOF.
@@ -59,6 +61,20 @@ func carry(kind string, b []byte) (msg any, scribble func()) {
 		}
 	}
 	switch kind {
+	case "*strings.Reader/tag-consumed":
+		r := strings.NewReader("TG" + string(b))
+		io.ReadFull(r, make([]byte, 2))
+		return r, nil
+	case "*bytes.Reader/tag-consumed":
+		own = append([]byte("TG"), b...)
+		r := bytes.NewReader(own)
+		io.ReadFull(r, make([]byte, 2))
+		return r, scr
+	case "*bytes.Buffer/tag-consumed":
+		own = append([]byte("TG"), b...)
+		r := bytes.NewBuffer(own)
+		io.ReadFull(r, make([]byte, 2))
+		return r, scr
 	case "string":
 		return string(b), nil
 	case "*bytes.Buffer":
@@ -422,7 +438,7 @@ func jsonScenario() *explore.Scenario {
 func main() {
 	explore.Main(explore.Spec{
 		Property: "C16",
-		Rule:     "text: every string of length <= 4 over {0x00,'a','\\n','\\r','$',0xff} plus sizes across the pool classes (1023..65537, with NUL and invalid UTF-8 bytes), (a) handed to the text codec in each of 7 carriers with the upstream buffer overwritten afterwards (the retained string must not change), (b) written and read back through text alone / delimiter+text / length-field+text / varint+text with whole-buffer and 1-byte reads. JSON: object trees of depth <= 2 over ascii / unicode / escaped keys and 14 leaves (integers beyond 2^53, 1e308, 0.1, strings, bool, null, arrays, nested objects, duplicate keys) x useNumber x disallowUnknown x 7 carriers compared with encoding/json's own decode and written back; every proper prefix of every document, trailing garbage, and 21 non-object / malformed top levels must raise an exception and deliver nothing. distinct = distinct cases",
+		Rule:     "text: every string of length <= 4 over {0x00,'a','\\n','\\r','$',0xff} plus sizes across the pool classes (1023..65537, with NUL and invalid UTF-8 bytes), (a) handed to the text codec in each of 12 carriers (incl. readers whose leading tag bytes were already consumed) with the upstream buffer overwritten afterwards (the retained string must not change), (b) written and read back through text alone / delimiter+text / length-field+text / varint+text with whole-buffer and 1-byte reads. JSON: object trees of depth <= 2 over ascii / unicode / escaped keys and 14 leaves (integers beyond 2^53, 1e308, 0.1, strings, bool, null, arrays, nested objects, duplicate keys) x useNumber x disallowUnknown x 7 carriers compared with encoding/json's own decode and written back; every proper prefix of every document, trailing garbage, and 21 non-object / malformed top levels must raise an exception and deliver nothing. distinct = distinct cases",
 		Assume:   []string{"a frame that begins with one complete object followed by other bytes may be delivered as that object (the statement only requires the frame to begin with a complete object)", "encoding/json is the reference"},
 		Build:    func(tier string) []*explore.Scenario { return []*explore.Scenario{textScenario(), jsonScenario()} },
 	})
